@@ -58,6 +58,10 @@ type Config struct {
 	// EnvFileFormat lets env_file entries carry `format` (no format is registered in
 	// compose-go itself, so such a model only loads with SkipResolveEnvironment).
 	EnvFileFormat bool
+	// SharedFiles makes two or more services list the same env file and the same label file,
+	// whose values refer to a variable that the file listed before it defines differently for
+	// each service (the content of such a file depends on the service it is read for).
+	SharedFiles bool
 	// MultiSSH makes build.ssh (when drawn) carry at least two keys.
 	MultiSSH bool
 }
@@ -71,6 +75,8 @@ type Model struct {
 	Files map[string]string `json:"files,omitempty"`
 	// Env is the environment handed to the loader.
 	Env map[string]string `json:"env,omitempty"`
+	// Vars are the variables the documents refer to (set in Env, or unset with a default in the reference).
+	Vars []string `json:"vars,omitempty"`
 	// Profiles are the active profiles.
 	Profiles []string `json:"profiles,omitempty"`
 	// Layout spreads Doc over several files (nil: single compose.yaml).
@@ -238,6 +244,9 @@ func (g *G) project() {
 		infos = append(infos, info)
 	}
 	doc["services"] = services
+	if g.Cfg.SharedFiles && len(infos) >= 2 {
+		g.sharedFiles(services, infos)
+	}
 	usesDefault := false
 	for _, s := range services {
 		sm := s.(M)
@@ -287,6 +296,35 @@ func (g *G) project() {
 	if g.chance(0.15) && !g.Cfg.Avoid["project.name"] {
 		g.m.NameInFile = true
 		doc["name"] = pick(g, "myproj", "app-1", "demo_2")
+	}
+}
+
+// sharedFiles makes several services list one env file and one label file whose content
+// depends on what the file listed before defines.
+func (g *G) sharedFiles(services M, infos []*svcInfo) {
+	g.m.Files["env/shared.env"] = "SHARED_QUEUE=jobs-${TIER}\nSHARED_PLAIN=plain\nSHARED_DEFAULT=${TIER_UNSET:-none}\n"
+	g.m.Files["labels/shared.label"] = "com.shared.queue=queue-${LTIER}\ncom.shared.plain=plain\n"
+	users := subset(g, infos, g.n(2, len(infos)))
+	for _, info := range users {
+		s := services[info.name].(M)
+		if _, mode := s["env_file"].(L); !mode {
+			if v, ok := s["env_file"].(string); ok {
+				s["env_file"] = L{v}
+			} else if s["env_file"] == nil {
+				s["env_file"] = L{}
+			}
+		}
+		tier := "env/" + info.name + "-tier.env"
+		g.m.Files[tier] = "TIER=" + info.name + "\n"
+		var shared any = "./env/shared.env"
+		if g.long() {
+			shared = M{"path": "./env/shared.env", "required": true}
+		}
+		s["env_file"] = append(s["env_file"].(L), "./"+tier, shared)
+		ltier := "labels/" + info.name + "-tier.label"
+		g.m.Files[ltier] = "LTIER=" + info.name + "\n"
+		lf, _ := s["label_file"].(L)
+		s["label_file"] = append(lf, "./"+ltier, "./labels/shared.label")
 	}
 }
 
@@ -347,6 +385,7 @@ func (m *Model) Clone() *Model {
 		n.Env[k] = v
 	}
 	n.Profiles = append([]string(nil), m.Profiles...)
+	n.Vars = append([]string(nil), m.Vars...)
 	if m.Layout != nil {
 		n.Layout = m.Layout.clone()
 	}
